@@ -395,9 +395,9 @@ inst!(fi_trav_n0_5, [props=C08 xprops=C14 tier=quick cfg=x86std t=1500 role=find
 inst!(fi_trav_n2_5x3, [props=C08 xprops=C14 tier=quick cfg=x86std t=1500 role=find-iter-traversal uw=traverse:11;naive:9;@RK;@TWNEW;@TWOFF;with_ranker:6;oracle:6;@PP], 3, subiter::traverse::<2, 5>(false, true, 3));
 inst!(fri_trav_n0_5, [props=C08 xprops=C14 tier=quick cfg=x86std t=1500 role=rfind-iter-traversal uw=traverse:10;naive:8;@RK;@TWNEW;@TWOFF;with_ranker:6;oracle:6], 3, subiter::traverse::<0, 5>(true, true, 8));
 inst!(fri_trav_n2_5x3, [props=C08 xprops=C14 tier=quick cfg=x86std t=1500 role=rfind-iter-traversal uw=traverse:11;naive:9;@RK;@TWNEW;@TWOFF;with_ranker:6;oracle:6;@PP], 3, subiter::traverse::<2, 5>(true, false, 3));
-inst!(fi_trav_n1_7, [props=C08 xprops=C14 tier=thorough cfg=x86std t=3600 role=find-iter-traversal uw=traverse:12;naive:10;@RK;@TWNEW;@TWOFF;with_ranker:6;oracle:6;@MEMCHR], 3, subiter::traverse::<1, 7>(false, false, 10));
-inst!(fi_trav_n3_8, [props=C08 xprops=C14 tier=thorough cfg=x86std t=3600 role=find-iter-traversal uw=traverse:13;naive:11;@RK;@TWNEW;@TWOFF;with_ranker:6;oracle:6;@PP], 3, subiter::traverse::<3, 8>(false, true, 11));
-inst!(fri_trav_n3_8, [props=C08 xprops=C14 tier=thorough cfg=x86std t=3600 role=rfind-iter-traversal uw=traverse:13;naive:11;@RK;@TWNEW;@TWOFF;with_ranker:6;oracle:6;@PP], 3, subiter::traverse::<3, 8>(true, true, 11));
+inst!(fi_trav_n1_7, [props=C08 xprops=C14 tier=manual cfg=x86std t=3600 role=find-iter-traversal uw=traverse:12;naive:10;@RK;@TWNEW;@TWOFF;with_ranker:6;oracle:6;@MEMCHR], 3, subiter::traverse::<1, 7>(false, false, 10));
+inst!(fi_trav_n3_8, [props=C08 xprops=C14 tier=manual cfg=x86std t=3600 role=find-iter-traversal uw=traverse:13;naive:11;@RK;@TWNEW;@TWOFF;with_ranker:6;oracle:6;@PP], 3, subiter::traverse::<3, 8>(false, true, 11));
+inst!(fri_trav_n3_8, [props=C08 xprops=C14 tier=manual cfg=x86std t=3600 role=rfind-iter-traversal uw=traverse:13;naive:11;@RK;@TWNEW;@TWOFF;with_ranker:6;oracle:6;@PP], 3, subiter::traverse::<3, 8>(true, true, 11));
 
 // ---------------------------------------------------------------------------
 // C16: a finder is a pure function of its needle
@@ -560,7 +560,7 @@ inst!(pur_iter_copies_fwd_n0, [props=C16 xprops=C14 tier=quick cfg=x86std t=1500
 #[cfg(not(vcfg_x86none))]
 inst!(pur_iter_copies_rev_n0, [props=C16 xprops=C14 tier=quick cfg=x86std t=1500 role=iterator-copies uw=@RK;@TWNEW;@TWOFF;with_ranker:6;oracle:6;@PP;clone:6;from:6], 3, purity::iter_copies::<0, 6>(true));
 #[cfg(not(vcfg_x86none))]
-inst!(pur_iter_copies_fwd_n2, [props=C16 xprops=C14 tier=thorough cfg=x86std t=1500 role=iterator-copies uw=@RK;@TWNEW;@TWOFF;with_ranker:6;oracle:6;@PP;clone:6;from:6], 3, purity::iter_copies::<2, 5>(false));
+inst!(pur_iter_copies_fwd_n2, [props=C16 xprops=C14 tier=manual cfg=x86std t=1500 role=iterator-copies uw=@RK;@TWNEW;@TWOFF;with_ranker:6;oracle:6;@PP;clone:6;from:6], 3, purity::iter_copies::<2, 5>(false));
 #[cfg(not(vcfg_x86none))]
 inst!(pur_iter_copies_rev_n2, [props=C16 xprops=C14 tier=thorough cfg=x86std t=1500 role=iterator-copies uw=@RK;@TWNEW;@TWOFF;with_ranker:6;oracle:6;@PP;clone:6;from:6], 3, purity::iter_copies::<2, 5>(true));
 
@@ -699,7 +699,7 @@ inst!(rank_n2_sse2, [props=C10+C03 xprops=C14 tier=quick cfg=x86std t=1800 role=
     finder_nondet_ranker::<2, 20>(1, 0, 20));
 inst!(rank_n3_sse2, [props=C10+C03 xprops=C14 tier=thorough cfg=x86std t=1800 role=nondet-ranker-packed uw=@RK;@TWNEW;@TWOFF;with_ranker:6;oracle:6;@PP], 3,
     finder_nondet_ranker::<3, 20>(1, 0, 20));
-inst!(rank_n4_sse2, [props=C10+C03 xprops=C14 tier=thorough cfg=x86std t=3600 role=nondet-ranker-packed uw=@RK;@TWNEW;@TWOFF;with_ranker:6;oracle:6;@PP], 3,
+inst!(rank_n4_sse2, [props=C10+C03 xprops=C14 tier=manual cfg=x86std t=3600 role=nondet-ranker-packed uw=@RK;@TWNEW;@TWOFF;with_ranker:6;oracle:6;@PP], 3,
     finder_nondet_ranker::<4, 22>(1, 0, 22));
 inst!(rank_n2_nosimd_rk, [props=C10+C03 xprops=C14 tier=quick cfg=generic t=1800 role=nondet-ranker-nosimd uw=@RK;@TWNEW;@TWOFF;with_ranker:6;oracle:6;find_prefilter.0:2;@MEMCHR], 3,
     finder_nondet_ranker::<2, 9>(0, 0, 9));
